@@ -150,15 +150,15 @@ Qed.
 
 (* ------------------------------------------------------------------ the invariant of Proofs/Cache for this instance *)
 Section Inv.
-Variable max : N.
-Variable Pa : bytes -> Prop.          (* a property of the names asked, e.g. wire validity *)
+(* a property of the (name as asked, max answer) of the queries, e.g. wire validity, or "max answer = m" *)
+Variable Pq : bytes -> N -> Prop.
 
 (* every entry is the canonical outcome on the CURRENT generation for its key, computed for SOME asker's
-   spelling of the name.  (Stronger than Proofs/Cache.entry_ok in that entries of weighted answers are
-   covered too: Serve.v has no draws.) *)
+   spelling of the name and SOME asker's max answer.  (Stronger than Proofs/Cache.entry_ok in that entries
+   of weighted answers are covered too: Serve.v has no draws.) *)
 Definition entry_ok (g : gen) (s : bytes) (e : Cache.entry body) : Prop :=
-  exists k a, s = Cache.key_string k /\ Cache.wf_key k /\ lower_bytes a = Cache.k_name k /\ Pa a /\
-              Cache.e_body e = core max g k a 0.
+  exists k a mx, s = Cache.key_string k /\ Cache.wf_key k /\ lower_bytes a = Cache.k_name k /\ Pq a mx /\
+                 Cache.e_body e = core mx g k a 0.
 Definition Inv (g : gen) (c : hcache) : Prop := forall s e, In (s, e) c -> entry_ok g s e.
 
 Lemma Inv_nil : forall g, Inv g [].
@@ -174,23 +174,23 @@ Proof.
   - apply H. eapply Cache.in_remove; eauto.
 Qed.
 
-(* what one request gets written *)
-Definition written (g : gen) (r : Cache.request) (f : wresponse) (o : Cache.outcome) : Prop :=
+(* what one request, arriving with max answer [max], gets written *)
+Definition written (max : N) (g : gen) (r : Cache.request) (f : wresponse) (o : Cache.outcome) : Prop :=
   (badvers r = true /\ f = badvers_reply r) \/
   (badvers r = false /\ located g r = false /\ f = (fun _ => ONoReply)) \/
   (badvers r = false /\ located g r = true /\
-   exists a, lower_bytes a = lower_bytes (Cache.q_asked r) /\ Pa a /\
-             (o <> Cache.OHit -> a = Cache.q_asked r) /\
-             f = finish (core max g (Cache.key_of gen lower_bytes locate g r) a 0) r (locate g r)).
+   exists a mx, lower_bytes a = lower_bytes (Cache.q_asked r) /\ Pq a mx /\
+                (o <> Cache.OHit -> a = Cache.q_asked r /\ mx = max) /\
+                f = finish (core mx g (Cache.key_of gen lower_bytes locate g r) a 0) r (locate g r)).
 
-Definition req_ok (r : Cache.request) : Prop :=
-  Cache.q_qtype r < 65536 /\ Cache.q_qclass r < 65536 /\ Pa (Cache.q_asked r).
+Definition req_ok (max : N) (r : Cache.request) : Prop :=
+  Cache.q_qtype r < 65536 /\ Cache.q_qclass r < 65536 /\ Pq (Cache.q_asked r) max.
 
-Lemma handle_step : forall cfg g c now r, Inv g c -> req_ok r ->
+Lemma handle_step : forall max cfg g c now r, Inv g c -> req_ok max r ->
   Inv g (fst (fst (handle max cfg g c now r))) /\
-  written g r (snd (fst (handle max cfg g c now r))) (snd (handle max cfg g c now r)).
+  written max g r (snd (fst (handle max cfg g c now r))) (snd (handle max cfg g c now r)).
 Proof.
-  intros cfg g c now r HI (HT & HC & HP). unfold handle.
+  intros max cfg g c now r HI (HT & HC & HP). unfold handle.
   destruct (badvers r) eqn:B; cbn [negb andb].
   - unfold cached_serve, Cache.serve. rewrite B. cbn [fst snd]. split; [exact HI|]. left. auto.
   - destruct (located g r) eqn:Lc; cbn [negb].
@@ -202,10 +202,10 @@ Proof.
       destruct (located_loc g r Lc) as (_ & H). auto. }
     set (b := core max g k (Cache.q_asked r) 0).
     assert (EO : forall x, entry_ok g (Cache.key_string k) (Cache.mkE x b)).
-    { intros x. exists k, (Cache.q_asked r). repeat split; auto; apply WK. }
-    assert (MISS : forall o, written g r (finish b r (Cache.k_loc k)) o).
+    { intros x. exists k, (Cache.q_asked r), max. repeat split; auto; apply WK. }
+    assert (MISS : forall o, written max g r (finish b r (Cache.k_loc k)) o).
     { intros o. right. right. split; [exact B|]. split; [exact Lc|].
-      exists (Cache.q_asked r). repeat split; auto. }
+      exists (Cache.q_asked r), max. repeat split; auto. }
     assert (INS : forall c0, Inv g c0 ->
       Inv g (if negb (Cache.cc_enabled cfg) || refusedf max g k then c0
              else if negb (weightedf max g k)
@@ -224,10 +224,10 @@ Proof.
         destruct (Cache.e_exp e <? now); cbn [fst snd].
         -- split; [|apply MISS]. apply INS. apply Inv_remove. exact IC.
         -- split; [exact IC|].
-           apply Cache.find_in in F. destruct (HI _ _ F) as (k' & a & KS & PK & LA & PA & EB).
+           apply Cache.find_in in F. destruct (HI _ _ F) as (k' & a & mx & KS & PK & LA & PA & EB).
            assert (k' = k) by (apply Cache.key_string_injective; auto). subst k'.
            right. right. split; [exact B|]. split; [exact Lc|].
-           exists a. split; [exact LA|]. split; [exact PA|]. split; [intros X; contradiction X; reflexivity|].
+           exists a, mx. split; [exact LA|]. split; [exact PA|]. split; [intros X; contradiction X; reflexivity|].
            rewrite EB. reflexivity.
       * cbn [fst snd]. split; [|apply MISS]. apply INS; auto.
     + cbn [fst snd]. split; [|apply MISS]. apply INS; auto.
@@ -235,22 +235,22 @@ Qed.
 
 (* ---------------------------------------------------------------- histories *)
 Definition hist_ok (h : list (Cache.event gen)) : Prop :=
-  Forall (fun ev => match ev with Cache.EQuery _ _ _ r => req_ok r | _ => True end) h.
+  Forall (fun ev => match ev with Cache.EQuery _ _ mx r => req_ok mx r | _ => True end) h.
 
-Definition entry_written (x : gen * Cache.request * wresponse * Cache.outcome) : Prop :=
-  let '(g, r, f, o) := x in written g r f o.
+Definition entry_written (x : gen * N * Cache.request * wresponse * Cache.outcome) : Prop :=
+  let '(g, mx, r, f, o) := x in written mx g r f o.
 
 Theorem history_written : forall cfg h g c, Inv g c -> hist_ok h ->
-  Inv (fst (hfinal max cfg (g, c) h)) (snd (hfinal max cfg (g, c) h)) /\
-  Forall entry_written (htrace max cfg (g, c) h).
+  Inv (fst (hfinal cfg (g, c) h)) (snd (hfinal cfg (g, c) h)) /\
+  Forall entry_written (htrace cfg (g, c) h).
 Proof.
   intros cfg h. induction h as [|ev h IH]; intros g c HI HH.
   - cbn. split; [exact HI|constructor].
   - inversion HH as [|? ? Hev HH']; subst.
-    cbn [hfinal fold_left htrace]. fold (hfinal max cfg (hstep max cfg (g, c) ev) h).
-    destruct ev as [now rnd r|g'|].
-    + cbn [fst snd hstep]. pose proof (handle_step cfg g c now r HI Hev) as S.
-      destruct (handle max cfg g c now r) as ((c' & f) & o). cbn [fst snd] in S. destruct S as (I' & W).
+    cbn [hfinal fold_left htrace]. fold (hfinal cfg (hstep cfg (g, c) ev) h).
+    destruct ev as [now mx r|g'|].
+    + cbn [fst snd hstep]. pose proof (handle_step mx cfg g c now r HI Hev) as S.
+      destruct (handle mx cfg g c now r) as ((c' & f) & o). cbn [fst snd] in S. destruct S as (I' & W).
       destruct (IH g c' I' HH') as (IF & T). split; [exact IF|].
       cbn [app]. constructor; [exact W|exact T].
     + cbn [hstep app]. apply IH; [apply Inv_nil|exact HH'].
@@ -258,37 +258,53 @@ Proof.
 Qed.
 End Inv.
 
-(* on histories of located requests (the domain of Proofs/Cache.hist_ok: every key well formed) the run of
-   [handle] is the run of Model/Cache (Cache.crun) for this instance *)
+Lemma Inv_weaken : forall (P Q : bytes -> N -> Prop) g c, (forall a m, P a m -> Q a m) -> Inv P g c -> Inv Q g c.
+Proof.
+  intros P Q g c PQ H s e I. destruct (H s e I) as (k & a & mx & A1 & A2 & A3 & A4 & A5).
+  exists k, a, mx. repeat split; auto; apply A2.
+Qed.
+
+(* all queries of the history arrive with the same max answer *)
+Definition hist_max (max : N) (h : list (Cache.event gen)) : Prop :=
+  Forall (fun ev => match ev with Cache.EQuery _ _ mx _ => mx = max | _ => True end) h.
+
+(* on histories of located requests with one max answer (the domain of Proofs/Cache.hist_ok: every key well
+   formed) the run of [handle] is the run of Model/Cache (Cache.crun) for this instance *)
 Theorem htrace_is_crun : forall max cfg h g c,
+  hist_max max h ->
   Cache.hist_ok gen lower_bytes locate Cache.wf_key g h ->
-  map (fun x => (snd (fst x), snd x)) (htrace max cfg (g, c) h) =
+  map (fun x => (snd (fst x), snd x)) (htrace cfg (g, c) h) =
   flat_map (fun o => match o with Some x => [x] | None => [] end)
     (Cache.crun gen body wresponse lower_bytes locate (core max) (weightedf max) (refusedf max)
                 finish badvers badvers_reply cfg (g, c) h).
 Proof.
-  intros max cfg h. induction h as [|ev h IH]; intros g c HH; [reflexivity|].
+  intros max cfg h. induction h as [|ev h IH]; intros g c HM HH; [reflexivity|].
+  inversion HM as [|? ? Hev HM']; subst.
   destruct ev as [now rnd r|g'|]; cbn [htrace Cache.crun Cache.cstep Cache.hist_ok fst snd hstep] in *.
-  - destruct HH as (HP & HH).
+  - destruct HH as (HP & HH). subst rnd.
     assert (Lc : located g r = true).
     { unfold located. apply N.ltb_lt. apply HP. }
-    rewrite (handle_located max cfg g c now rnd r (or_intror Lc)).
+    rewrite (handle_located max cfg g c now max r (or_intror Lc)).
     destruct (Cache.serve gen body wresponse lower_bytes locate (core max) (weightedf max) (refusedf max)
-                finish badvers badvers_reply cfg g c now rnd r) as ((c' & f) & o).
-    cbn. f_equal. apply IH. exact HH.
-  - cbn. apply IH. exact HH.
-  - cbn. apply IH. exact HH.
+                finish badvers badvers_reply cfg g c now max r) as ((c' & f) & o).
+    cbn. f_equal. apply IH; [exact HM'|exact HH].
+  - cbn. apply IH; [exact HM'|exact HH].
+  - cbn. apply IH; [exact HM'|exact HH].
 Qed.
 
 (* ------------------------------------------------------------------ refinement modulo owner-name case *)
 (* [response_refines L recs n q ecs max x] (Proofs/FileLevel) is the conclusion of C01_response_is_spec.
-   Modulo owner case: the reply echoes THIS request's id and question, and is otherwise what the
-   statement prescribes for the same question spelled [a], equal to the name asked up to letter case -
-   i.e. the owner names of the answer section are spelled [a]. *)
+   [refines_variant ... a mx x]: the reply x echoes THIS request's id and question, and is otherwise what
+   the statement prescribes for the same question spelled [a] - equal to the name asked up to letter
+   case - arriving with max answer [mx]: the owner names of the answer section are spelled [a].
+   [refines_mod_case]: for some such spelling, with this request's max answer. *)
+Definition refines_variant (L : bytes) (recs : list Answer.record) (n : name) (q : query)
+           (ecs : option ecsval) (a : bytes) (mx : N) (x : response) : Prop :=
+  lower_bytes a = lower_bytes (q_name q) /\ rs_question x = question_of q /\
+  response_refines L recs n (rename q a) ecs mx (set_question x (question_of (rename q a))).
 Definition refines_mod_case (L : bytes) (recs : list Answer.record) (n : name) (q : query)
            (ecs : option ecsval) (max : N) (x : response) : Prop :=
-  exists a, lower_bytes a = lower_bytes (q_name q) /\ rs_question x = question_of q /\
-            response_refines L recs n (rename q a) ecs max (set_question x (question_of (rename q a))).
+  exists a, refines_variant L recs n q ecs a max x.
 
 Lemma rename_same : forall q, rename q (q_name q) = q.
 Proof. intros q. destruct q; reflexivity. Qed.
@@ -320,35 +336,35 @@ Proof.
   cbn in H. inversion H. reflexivity.
 Qed.
 
-Theorem written_refines : forall max Pa g r f o recs,
-  written max Pa g r f o -> badvers r = false ->
+Theorem written_refines : forall Pq max g r f o recs,
+  written Pq max g r f o -> badvers r = false ->
   serves g (loc_of_num (locate g r)) recs ->
   forall ecs x n, wf_name n -> nlen (pack n) <= 255 -> lower_bytes (Cache.q_asked r) = pack n ->
   f ecs = OReply x ->
   located g r = true /\
-  refines_mod_case (loc_of_num (locate g r)) recs n (query_of r) ecs max x /\
+  (exists a mx, Pq a mx /\ refines_variant (loc_of_num (locate g r)) recs n (query_of r) ecs a mx x) /\
   (o <> Cache.OHit -> response_refines (loc_of_num (locate g r)) recs n (query_of r) ecs max x).
 Proof.
-  intros max Pa g r f o recs W B S ecs x n Hn Hl Hq Hf.
-  destruct W as [(B' & _)|[(_ & _ & E)|(_ & Lc & a & LA & _ & HO & E)]].
+  intros Pq max g r f o recs W B S ecs x n Hn Hl Hq Hf.
+  destruct W as [(B' & _)|[(_ & _ & E)|(_ & Lc & a & mx & LA & PA & HO & E)]].
   - rewrite B in B'. discriminate.
   - subst f. discriminate.
   - split; [exact Lc|]. subst f. unfold finish in Hf.
     set (q := query_of r) in *. set (L := loc_of_num (locate g r)) in *.
     set (q' := rename q a).
     assert (He : q_edns q' = None \/ q_edns q' = Some 0) by (apply badvers_false; exact B).
-    pose proof (serve_factor (g_backend g) (g_store g) q' (LocOk L) ecs max He) as SF.
-    change (serve (g_backend g) (g_store g) (canon (q_name q') (q_type q') (q_class q')) (LocOk L) None max)
-      with (core max g (Cache.key_of gen lower_bytes locate g r) a 0) in SF.
+    pose proof (serve_factor (g_backend g) (g_store g) q' (LocOk L) ecs mx He) as SF.
+    change (serve (g_backend g) (g_store g) (canon (q_name q') (q_type q') (q_class q')) (LocOk L) None mx)
+      with (core mx g (Cache.key_of gen lower_bytes locate g r) a 0) in SF.
     destruct (patch_reply _ _ _ _ Hf) as (y & Ey & Ex).
     rewrite Ey in SF. cbn [patch] in SF.
-    assert (R' : response_refines L recs n q' ecs max (set_question x (question_of q'))).
-    { apply (S q' n ecs max); auto.
+    assert (R' : response_refines L recs n q' ecs mx (set_question x (question_of q'))).
+    { apply (S q' n ecs mx); auto.
       - cbn [q_name q' rename]. rewrite LA. exact Hq.
       - rewrite SF. subst x. reflexivity. }
     split.
-    + exists a. split; [exact LA|]. split; [subst x; reflexivity|]. exact R'.
-    + intros NH. specialize (HO NH). subst a. unfold q' in R'. rewrite rename_same in R'.
+    + exists a, mx. split; [exact PA|]. split; [exact LA|]. split; [subst x; reflexivity|]. exact R'.
+    + intros NH. destruct (HO NH) as (Ea & Em). subst a mx. unfold q' in R'. rewrite rename_same in R'.
       assert (EQ : question_of q = rs_question x) by (subst x; reflexivity).
       rewrite EQ, set_question_same in R'. exact R'.
 Qed.
@@ -417,15 +433,54 @@ Definition hist_wire (h : list (Cache.event gen)) : Prop :=
                     | Cache.EQuery _ _ _ r => Cache.q_qtype r < 65536 /\ Cache.q_qclass r < 65536
                     | _ => True end) h.
 
-Lemma hist_wire_ok : forall h, hist_wire h -> hist_ok (fun _ => True) h.
+Lemma hist_wire_ok : forall h, hist_wire h -> hist_ok (fun _ _ => True) h.
 Proof.
   intros h H. unfold hist_ok. eapply Forall_impl; [|exact H].
   intros [now rnd r|g'|]; auto. intros (A & B). repeat split; auto.
 Qed.
 
-(* one entry of the trace of a history: generation in force, request, what is written, cache outcome *)
-Definition entry_is_spec (max : N) (x : gen * Cache.request * wresponse * Cache.outcome) : Prop :=
-  let '(g, r, f, o) := x in
+Lemma hist_wire_max_ok : forall max h, hist_wire h -> hist_max max h -> hist_ok (fun _ m => m = max) h.
+Proof.
+  intros max h H M. unfold hist_ok, hist_wire, hist_max in *. rewrite Forall_forall in *.
+  intros ev Hev. specialize (H ev Hev). specialize (M ev Hev).
+  destruct ev as [now rnd r|g'|]; auto. destruct H as (A & B). repeat split; auto.
+Qed.
+
+Lemma edns_ok_badvers : forall r, (req_edns r = None \/ req_edns r = Some 0) -> badvers r = false.
+Proof. intros r [E|E]; unfold badvers; rewrite E; reflexivity. Qed.
+
+(* one entry of the trace of a history: generation in force, max answer, request, what is written, cache
+   outcome.  Queries arriving with ANY max answers (listeners configured differently share the cache, whose
+   key does not hold the max answer): a hit is what the statement prescribes for the max answer [mx'] of the
+   query the entry was computed for *)
+Definition entry_is_spec_any (x : gen * N * Cache.request * wresponse * Cache.outcome) : Prop :=
+  let '(g, mx, r, f, o) := x in
+  forall recs ecs y n,
+    let L := loc_of_num (locate g r) in
+    gen_declares g L recs ->
+    (req_edns r = None \/ req_edns r = Some 0) ->
+    wf_name n -> nlen (pack n) <= 255 -> lower_bytes (Cache.q_asked r) = pack n ->
+    f ecs = OReply y ->
+    located g r = true /\
+    (exists a mx', refines_variant L recs n (query_of r) ecs a mx' y) /\
+    (o <> Cache.OHit -> response_refines L recs n (query_of r) ecs mx y).
+
+Theorem cached_handler_is_spec_any_max : forall cfg h g0,
+  hist_wire h -> Forall entry_is_spec_any (htrace cfg (g0, []) h).
+Proof.
+  intros cfg h g0 HW.
+  destruct (history_written (fun _ _ => True) cfg h g0 [] (Inv_nil _ g0) (hist_wire_ok h HW)) as (_ & T).
+  eapply Forall_impl; [|exact T].
+  intros ((((g & mx) & r) & f) & o) W. cbn in W. intros recs ecs y n L D He Hn Hl Hq Hf.
+  destruct (written_refines _ mx g r f o recs W (edns_ok_badvers r He) (declares_serves g L recs D) ecs y n Hn Hl Hq Hf)
+    as (A & (a & mx' & _ & B) & C).
+  split; [exact A|]. split; [exists a, mx'; exact B|exact C].
+Qed.
+
+(* all queries with one max answer *)
+Definition entry_is_spec (max : N) (x : gen * N * Cache.request * wresponse * Cache.outcome) : Prop :=
+  let '(g, mx, r, f, o) := x in
+  mx = max /\
   forall recs ecs y n,
     let L := loc_of_num (locate g r) in
     gen_declares g L recs ->
@@ -436,59 +491,209 @@ Definition entry_is_spec (max : N) (x : gen * Cache.request * wresponse * Cache.
     refines_mod_case L recs n (query_of r) ecs max y /\
     (o <> Cache.OHit -> response_refines L recs n (query_of r) ecs max y).
 
-Lemma edns_ok_badvers : forall r, (req_edns r = None \/ req_edns r = Some 0) -> badvers r = false.
-Proof. intros r [E|E]; unfold badvers; rewrite E; reflexivity. Qed.
+Lemma htrace_max : forall max cfg h st, hist_max max h ->
+  Forall (fun x => snd (fst (fst (fst x))) = max) (htrace cfg st h).
+Proof.
+  intros max cfg h. induction h as [|ev h IH]; intros st HM; [constructor|].
+  inversion HM as [|? ? Hev HM']; subst. cbn [htrace].
+  destruct ev as [now mx r|g'|].
+  - destruct (handle mx cfg (fst st) (snd st) now r) as ((c' & f) & o).
+    cbn [app]. constructor; [exact Hev|]. apply IH. exact HM'.
+  - cbn [app]. apply IH. exact HM'.
+  - cbn [app]. apply IH. exact HM'.
+Qed.
 
 (* C12_cached_handler_is_spec *)
 Theorem cached_handler_is_spec : forall max cfg h g0,
-  hist_wire h -> Forall (entry_is_spec max) (htrace max cfg (g0, []) h).
+  hist_wire h -> hist_max max h -> Forall (entry_is_spec max) (htrace cfg (g0, []) h).
 Proof.
-  intros max cfg h g0 HW.
-  destruct (history_written max (fun _ => True) cfg h g0 [] (Inv_nil max _ g0) (hist_wire_ok h HW)) as (_ & T).
-  eapply Forall_impl; [|exact T].
-  intros (((g & r) & f) & o) W. cbn in W. intros recs ecs y n L D He Hn Hl Hq Hf.
-  exact (written_refines max _ g r f o recs W (edns_ok_badvers r He) (declares_serves g L recs D) ecs y n Hn Hl Hq Hf).
+  intros max cfg h g0 HW HM.
+  destruct (history_written (fun _ m => m = max) cfg h g0 [] (Inv_nil _ g0) (hist_wire_max_ok max h HW HM)) as (_ & T).
+  pose proof (htrace_max max cfg h (g0, []) HM) as M.
+  rewrite Forall_forall in *. intros x Hx. specialize (T x Hx). specialize (M x Hx).
+  destruct x as ((((g & mx) & r) & f) & o). cbn in M |- *. cbn in T. subst mx. split; [reflexivity|].
+  intros recs ecs y n D He Hn Hl Hq Hf.
+  destruct (written_refines _ max g r f o recs T (edns_ok_badvers r He) (declares_serves g _ recs D) ecs y n Hn Hl Hq Hf)
+    as (A & (a & mx' & Em & B) & C).
+  subst mx'. split; [exact A|]. split; [exists a; exact B|exact C].
 Qed.
 
 (* every response of the cached handler is the response of the plain handler to a request that
-   differs at most in the letter case of the name, re-addressed (id, question) to this request;
-   on a miss (cache off, miss, expired entry) it IS the plain handler's response *)
+   differs at most in the letter case of the name (and in the max answer it arrives with), re-addressed
+   (id, question) to this request; on a miss (cache off, miss, expired entry) it IS the plain handler's
+   response *)
 Definition recase (r : Cache.request) (a : bytes) : Cache.request :=
   Cache.mkReq (Cache.q_from r) a (Cache.q_qtype r) (Cache.q_qclass r) (Cache.q_extra r).
 
-Definition entry_case_variant (max : N) (x : gen * Cache.request * wresponse * Cache.outcome) : Prop :=
-  let '(g, r, f, o) := x in
+Definition entry_case_variant (x : gen * N * Cache.request * wresponse * Cache.outcome) : Prop :=
+  let '(g, mx, r, f, o) := x in
   (badvers r = false /\ located g r = false /\ f = (fun _ => ONoReply)) \/
   ((badvers r = true \/ located g r = true) /\
-   exists a, lower_bytes a = lower_bytes (Cache.q_asked r) /\ (o <> Cache.OHit -> a = Cache.q_asked r) /\
+   exists a mx', lower_bytes a = lower_bytes (Cache.q_asked r) /\
+     (o <> Cache.OHit -> a = Cache.q_asked r /\ mx' = mx) /\
      forall ecs, f ecs =
-       requestion (serve (g_backend g) (g_store g) (query_of (recase r a)) (g_loc g r) ecs max)
+       requestion (serve (g_backend g) (g_store g) (query_of (recase r a)) (g_loc g r) ecs mx')
                   (match req_edns r with Some (Npos _) => None | _ => question_of (query_of r) end)).
 
 Lemma patch_requestion : forall o q a ecs,
   patch o q ecs = requestion (patch o (rename q a) ecs) (question_of q).
 Proof. intros o q a ecs. destruct o; reflexivity. Qed.
 
-Theorem cached_is_case_variant : forall max cfg h g0,
-  hist_wire h -> Forall (entry_case_variant max) (htrace max cfg (g0, []) h).
+Theorem cached_is_case_variant : forall cfg h g0,
+  hist_wire h -> Forall entry_case_variant (htrace cfg (g0, []) h).
 Proof.
-  intros max cfg h g0 HW.
-  destruct (history_written max (fun _ => True) cfg h g0 [] (Inv_nil max _ g0) (hist_wire_ok h HW)) as (_ & T).
+  intros cfg h g0 HW.
+  destruct (history_written (fun _ _ => True) cfg h g0 [] (Inv_nil _ g0) (hist_wire_ok h HW)) as (_ & T).
   eapply Forall_impl; [|exact T].
-  intros (((g & r) & f) & o) W. cbn in W. cbn.
-  destruct W as [(B & E)|[(B & Lc & E)|(B & Lc & a & LA & _ & HO & E)]].
-  - right. split; [auto|]. exists (Cache.q_asked r). split; [reflexivity|]. split; [reflexivity|].
+  intros ((((g & mx) & r) & f) & o) W. cbn in W. cbn.
+  destruct W as [(B & E)|[(B & Lc & E)|(B & Lc & a & mx' & LA & _ & HO & E)]].
+  - right. split; [auto|]. exists (Cache.q_asked r), mx. split; [reflexivity|]. split; [auto|].
     intros ecs. subst f. destruct (badvers_true r B) as (v & Ev & Hv).
     assert (Q : q_edns (query_of (recase r (Cache.q_asked r))) = Some v) by exact Ev.
-    rewrite (serve_badvers (g_backend g) (g_store g) _ (g_loc g r) ecs max v Q Hv).
+    rewrite (serve_badvers (g_backend g) (g_store g) _ (g_loc g r) ecs mx v Q Hv).
     rewrite Ev. destruct v as [|p]; [contradiction|]. reflexivity.
   - left. auto.
-  - right. split; [auto|]. exists a. split; [exact LA|]. split; [exact HO|].
+  - right. split; [auto|]. exists a, mx'. split; [exact LA|]. split; [exact HO|].
     intros ecs. subst f. unfold finish.
     destruct (located_loc g r Lc) as (EL & _). rewrite EL.
     assert (He : q_edns (query_of (recase r a)) = None \/ q_edns (query_of (recase r a)) = Some 0)
       by (apply badvers_false; exact B).
-    rewrite (serve_factor (g_backend g) (g_store g) (query_of (recase r a)) _ ecs max He).
+    rewrite (serve_factor (g_backend g) (g_store g) (query_of (recase r a)) _ ecs mx' He).
     destruct (badvers_false r B) as [E0|E0]; rewrite E0;
       rewrite (patch_requestion _ (query_of r) a ecs); reflexivity.
+Qed.
+
+(* ------------------------------------------------------------------ C12_cached_equals_uncached, instantiated
+   Proofs/Cache.cache_invisible (= C12_cached_equals_uncached) applied as it stands to this instance.  Its
+   hypothesis (a) - the answer depends on the name as asked only through its lower-cased form, up to [beq] -
+   is NOT true of Serve.serve for [beq] = equality up to the letter case of owner names
+   (Proofs/ComposeExample.case_variant_not_owner_case), so [beq] / [req] are the relation that is true:
+   both are what the handler computes for two spellings of one name.  (The invariant-based theorems above
+   say more: WHICH generation and key, and they cover weighted answers and unlocated clients.) *)
+Definition case_variant_body (max : N) (b1 b2 : body) : Prop :=
+  b1 = b2 \/ exists g k a1 a2, lower_bytes a1 = lower_bytes a2 /\ b1 = core max g k a1 0 /\ b2 = core max g k a2 0.
+Definition case_variant_resp (max : N) (x y : wresponse) : Prop :=
+  x = y \/ exists g k a1 a2 r l, lower_bytes a1 = lower_bytes a2 /\
+    x = finish (core max g k a1 0) r l /\ y = finish (core max g k a2 0) r l.
+
+Lemma plain_any_rnd : forall max g rnd r,
+  Cache.serve_plain gen body wresponse lower_bytes locate (core max) finish badvers badvers_reply g rnd r = plain_serve max g r.
+Proof. reflexivity. Qed.
+
+Theorem cached_equals_uncached_handler : forall max cfg rnd' h g,
+  Cache.hist_ok gen lower_bytes locate Cache.wf_key g h ->
+  Forall (fun x => let '(w, a, b) := x in w = false -> case_variant_resp max a b)
+    (Cache.both gen body wresponse lower_bytes locate (core max) (weightedf max) (refusedf max)
+                finish badvers badvers_reply cfg rnd' g [] h).
+Proof.
+  intros max cfg rnd' h g HH.
+  apply (Cache.cache_invisible gen body wresponse lower_bytes locate (core max) (weightedf max) (refusedf max)
+           finish badvers badvers_reply (case_variant_body max) (case_variant_resp max)).
+  - intros b. left. reflexivity.
+  - intros a. left. reflexivity.
+  - intros b1 b2 r l [E|(g0 & k & a1 & a2 & L & E1 & E2)].
+    + subst. left. reflexivity.
+    + right. exists g0, k, a1, a2, r, l. subst. auto.
+  - intros g0 k a1 a2 rnd L. right. exists g0, k, a1, a2. repeat split; auto.
+  - intros. reflexivity.
+  - exact HH.
+Qed.
+
+(* ------------------------------------------------------------------ [gen_declares] spelled out *)
+Theorem gen_declares_meaning : forall g L recs, gen_declares g L recs <->
+  (g_backend g <> RDB2 /\ g_store g = store_v1 recs /\
+   wf_recs recs /\ Forall wf_ns_rdata recs /\ length L = 2%nat /\ wf_view L recs = true) \/
+  (g_backend g = RDB2 /\ g_store g = store_v2 recs /\
+   wf_recs recs /\ Forall wf_ns_rdata recs /\ length L = 2%nat /\ wf_view L recs = true) \/
+  (exists o serial nornet accum feature f stream kvs,
+     g_backend g = CDB /\ recs = declared_file o serial f /\
+     wf_file o serial f = true /\ side_ok accum feature f /\
+     Permutation stream (records bytes (conv_line o serial nornet false) accum feature f) /\
+     compile_cdb bytes (conv_line o serial nornet false) f stream = Ok kvs /\
+     (forall k, get (g_store g) k = vals_of k kvs) /\
+     loc_okb L = true /\ wf_view L recs = true) \/
+  (exists o serial nornet accum feature f db,
+     g_backend g = RDB1 /\ recs = declared_file o serial f /\
+     wf_file o serial f = true /\ side_ok accum feature f /\ feature <> [] /\
+     kvs_ok (records bytes (conv_line o serial nornet false) accum feature f) /\
+     rdb_compilation bytes (conv_line o serial nornet false) accum feature f db /\ rdb_dump db (g_store g) /\
+     loc_okb L = true /\ wf_view L recs = true) \/
+  (exists o serial nornet accum feature f db,
+     g_backend g = RDB2 /\ recs = declared_file o serial f /\
+     wf_file o serial f = true /\ side_ok accum feature f /\ feature <> [] /\
+     kvs_ok (records bytes (conv_line o serial nornet true) accum feature f) /\
+     rdb_compilation bytes (conv_line o serial nornet true) accum feature f db /\ rdb_dump db (g_store g) /\
+     length L = 2%nat /\ wf_view L recs = true).
+Proof.
+  intros g L recs. split.
+  - intros D. destruct D as [A1 A2 A3 A4 A5 A6 | A1 A2 A3 A4 A5 A6
+                | o serial nornet accum feature f stream kvs A1 A2 A3 A4 A5 A6 A7 A8 A9
+                | o serial nornet accum feature f db A1 A2 A3 A4 A5 A6 A7 A8 A9 A10
+                | o serial nornet accum feature f db A1 A2 A3 A4 A5 A6 A7 A8 A9 A10].
+    + left. auto 10.
+    + right. left. auto 10.
+    + right. right. left. exists o, serial, nornet, accum, feature, f, stream, kvs. auto 12.
+    + right. right. right. left. exists o, serial, nornet, accum, feature, f, db. auto 12.
+    + right. right. right. right. exists o, serial, nornet, accum, feature, f, db. auto 12.
+  - intros [(A1 & A2 & A3 & A4 & A5 & A6) | [(A1 & A2 & A3 & A4 & A5 & A6)
+      | [(o & serial & nornet & accum & feature & f & stream & kvs & A1 & A2 & A3 & A4 & A5 & A6 & A7 & A8 & A9)
+      | [(o & serial & nornet & accum & feature & f & db & A1 & A2 & A3 & A4 & A5 & A6 & A7 & A8 & A9 & A10)
+      | (o & serial & nornet & accum & feature & f & db & A1 & A2 & A3 & A4 & A5 & A6 & A7 & A8 & A9 & A10)]]]].
+    + apply GD_rows_v1; auto.
+    + apply GD_rows_v2; auto.
+    + eapply GD_file_cdb; eauto.
+    + eapply GD_file_rdb_v1; eauto.
+    + eapply GD_file_rdb_v2; eauto.
+Qed.
+
+(* ------------------------------------------------------------------ histories without a reload: one generation *)
+Definition no_reload (h : list (Cache.event gen)) : Prop :=
+  Forall (fun ev => match ev with Cache.EReload _ _ => False | _ => True end) h.
+
+Lemma htrace_gen_fixed : forall cfg h g0 c, no_reload h ->
+  Forall (fun x => fst (fst (fst (fst x))) = g0) (htrace cfg (g0, c) h).
+Proof.
+  intros cfg h. induction h as [|ev h IH]; intros g0 c NR; [constructor|].
+  inversion NR as [|? ? Hev NR']; subst. cbn [htrace].
+  destruct ev as [now rnd r|g'|]; [|contradiction|].
+  - cbn [fst snd hstep]. destruct (handle rnd cfg g0 c now r) as ((c' & f) & o).
+    cbn [app]. constructor; [reflexivity|]. apply IH. exact NR'.
+  - cbn [hstep app]. apply IH. exact NR'.
+Qed.
+
+Definition entry_is_spec_of (max : N) (g0 : gen) (recs : list Answer.record)
+           (x : gen * N * Cache.request * wresponse * Cache.outcome) : Prop :=
+  let '(g, mx, r, f, o) := x in
+  g = g0 /\ mx = max /\
+  forall ecs y n,
+    let L := loc_of_num (locate g0 r) in
+    gen_declares g0 L recs ->
+    (req_edns r = None \/ req_edns r = Some 0) ->
+    wf_name n -> nlen (pack n) <= 255 -> lower_bytes (Cache.q_asked r) = pack n ->
+    f ecs = OReply y ->
+    located g0 r = true /\
+    refines_mod_case L recs n (query_of r) ecs max y /\
+    (o <> Cache.OHit -> response_refines L recs n (query_of r) ecs max y).
+
+Theorem cached_handler_is_spec_fixed : forall max cfg h g0 recs,
+  hist_wire h -> hist_max max h -> no_reload h ->
+  Forall (entry_is_spec_of max g0 recs) (htrace cfg (g0, []) h).
+Proof.
+  intros max cfg h g0 recs HW HM NR.
+  pose proof (cached_handler_is_spec max cfg h g0 HW HM) as A.
+  pose proof (htrace_gen_fixed cfg h g0 [] NR) as B.
+  rewrite Forall_forall in *. intros x Hx. specialize (A x Hx). specialize (B x Hx).
+  destruct x as ((((g & mx) & r) & f) & o). cbn in B. subst g. cbn in A |- *. destruct A as (A1 & A2).
+  split; [reflexivity|]. split; [exact A1|].
+  intros ecs y n D. exact (A2 recs ecs y n D).
+Qed.
+
+(* with the cache switched off nothing is a hit: the refinement is exact for every query *)
+Lemma cache_off_no_hit : forall max cfg g c now r,
+  Cache.cc_enabled cfg = false -> snd (handle max cfg g c now r) <> Cache.OHit.
+Proof.
+  intros max cfg g c now r H. unfold handle.
+  destruct (negb (badvers r) && negb (located g r)); [cbn; discriminate|].
+  unfold cached_serve, Cache.serve. destruct (badvers r); [cbn; discriminate|].
+  cbv zeta. rewrite H. cbn. discriminate.
 Qed.
